@@ -69,7 +69,15 @@ structure Inst where
   acked : List (Nat × Nat) := []       -- (token, revision) of its acknowledged acquiring writes not yet claimed
   stopDel : Option Nat := none         -- the StopWithContext{DeleteKey} call in progress (api number)
   stopOwner : Bool := false           -- that call found the instance leading, or an acquiring write of it was acknowledged since
+  halted : Bool := false              -- a stop call has begun, or the run's context was cancelled, since the last successful Start
+  awd : Bool := false                 -- an acquiring write was acknowledged while halted: the promotion is refused, the record exists
+  startCall : Option Nat := none      -- the Start call in progress (api number)
   deriving Repr, Inhabited
+
+/-- A stop call begins, or the context passed to Start is cancelled: an acknowledged acquiring write that has
+    not been claimed (the promotion is about to be refused) leaves an orphan record behind. -/
+def Inst.halt (x : Inst) : Inst :=
+  { x with halted := true, awd := x.awd || (x.lead.isNone && !x.acked.isEmpty) }
 
 structure State where
   insts : Nat → Option Inst := fun _ => none
@@ -158,7 +166,7 @@ def stepCall (s : State) (t op i : Nat) (kind : OpKind) (key : String) (exp : Na
         else reject s!"Update by {i} (exp {exp}, token {tok}) is neither its heartbeat (term {repr x.lead}) nor an allowed takeover"
       | _ => reject s!"Update by {i} with a non-canonical payload"
     | .delete =>
-      if x.stopDel.isSome ∧ x.stopOwner then
+      if x.stopDel.isSome ∧ (x.stopOwner ∨ x.awd) then
         pure (s.addOp { id := op, inst := i, purpose := .delete, key := key, exp := 0, val := .empty, issued := t })
       else reject s!"Delete by {i} outside a StopWithContext(DeleteKey) that found it leading (or acquiring)"
     | _ => pure (s.addOp { id := op, inst := i, purpose := .other, key := key, exp := 0, val := .empty, issued := t })
@@ -217,12 +225,12 @@ def stepRet (s : State) (t op : Nat) (r : Ret) : R State :=
       | .create, .ok rev _ =>
         if p.applied ≠ some (some rev) then reject s!"op {op} acknowledged at {rev} but applied {repr p.applied}"
         else match valTok p.val with
-          | some tok => pure (s1.setInst { x with acked := (tok, rev) :: x.acked, stopOwner := x.stopOwner || x.stopDel.isSome })
+          | some tok => pure (s1.setInst { x with acked := (tok, rev) :: x.acked, stopOwner := x.stopOwner || x.stopDel.isSome, awd := x.awd || x.halted })
           | none => pure s1
       | .takeover, .ok rev _ =>
         if p.applied ≠ some (some rev) then reject s!"op {op} acknowledged at {rev} but applied {repr p.applied}"
         else match valTok p.val with
-          | some tok => pure (s1.setInst { x with acked := (tok, rev) :: x.acked, stopOwner := x.stopOwner || x.stopDel.isSome })
+          | some tok => pure (s1.setInst { x with acked := (tok, rev) :: x.acked, stopOwner := x.stopOwner || x.stopDel.isSome, awd := x.awd || x.halted })
           | none => pure s1
       | .heartbeat, .ok rev _ =>
         if p.applied ≠ some (some rev) then reject s!"op {op} acknowledged at {rev} but applied {repr p.applied}"
@@ -291,12 +299,25 @@ def step (s : State) (te : TEv) : R State :=
   | .flag i _ il tok _ => stepFlag s i il tok
   | .api n i (.stopctx del _ _ _) =>
     match s.insts i with
-    | some x => pure (s.setInst { x with stopDel := if del then some n else x.stopDel, stopOwner := if del then x.lead.isSome else x.stopOwner })
+    | some x => pure (s.setInst { (x.halt) with stopDel := if del then some n else x.stopDel, stopOwner := if del then x.lead.isSome else x.stopOwner })
     | none => pure s
-  | .apiRet n i _ =>
-    -- a returning StopWithContext ends its deletion window
+  | .api _ i .stop | .cancelCtx i =>
     match s.insts i with
-    | some x => pure (if x.stopDel = some n then s.setInst { x with stopDel := none } else s)
+    | some x => pure (s.setInst x.halt)
+    | none => pure s
+  | .api n i .start =>
+    match s.insts i with
+    | some x => pure (s.setInst { x with startCall := some n })
+    | none => pure s
+  | .apiRet n i r =>
+    match s.insts i with
+    | some x =>
+      -- a returning StopWithContext ends its deletion window (and consumes the orphan-record note);
+      -- a successful Start begins a new run
+      if x.stopDel = some n then pure (s.setInst { x with stopDel := none, awd := false })
+      else if x.startCall = some n then
+        pure (s.setInst (if r = .ok then { x with startCall := none, halted := false, awd := false, acked := [] } else { x with startCall := none }))
+      else pure s
     | none => pure s
   | _ => pure s
 
